@@ -31,7 +31,9 @@ import (
 
 var opts = &syntax.FileOptions{Set: true, While: true, TopLevelControl: true, GlobalReassign: true, Recursion: true}
 
-var reasons = []string{"too many steps", "r1", "r2", "r3", "r4"}
+var reasons = []string{"too many steps", "r1", "r2", "r3", "r4", "watchdog"}
+
+const watchdogReason = 5
 
 type op struct {
 	C int `json:"c"` // >0: Cancel(reasons[c]); 0: Uncancel
@@ -51,6 +53,8 @@ type host struct {
 	plan    map[int][]op
 	other   bool // perform the plan on another goroutine while b() waits
 	panicAt int
+	sepLoad  bool   // run loaded modules on a fresh thread each (to measure their cost separately)
+	sepSteps uint64 // steps counted on those threads
 }
 
 func (h *host) builtin(thread *starlark.Thread, _ *starlark.Builtin, args starlark.Tuple, kwargs []starlark.Tuple) (starlark.Value, error) {
@@ -112,8 +116,42 @@ func exec(thread *starlark.Thread, h *host, src string) (o obs) {
 	h.log = nil
 	h.mu.Unlock()
 	atomic.StoreInt64(&h.count, 0)
-	pre := starlark.StringDict{"b": starlark.NewBuiltin("b", h.builtin)}
+	pre := starlark.StringDict{"b": starlark.NewBuiltin("b", h.builtin), "hostcall": starlark.NewBuiltin("hostcall", hostcall)}
+	// load(): the module runs on the SAME thread (shared step budget), unless h.sepLoad
+	cache := map[string]starlark.StringDict{}
+	h.sepSteps = 0
+	thread.Load = func(t *starlark.Thread, module string) (starlark.StringDict, error) {
+		if g, ok := cache[module]; ok {
+			return g, nil
+		}
+		msrc, ok := modules[module]
+		if !ok {
+			return nil, fmt.Errorf("no module %s", module)
+		}
+		lt := t
+		if h.sepLoad {
+			lt = &starlark.Thread{Load: t.Load}
+		}
+		g, err := starlark.ExecFileOptions(opts, lt, module, msrc, pre)
+		if h.sepLoad {
+			h.sepSteps += lt.ExecutionSteps()
+		}
+		if err == nil {
+			cache[module] = g
+		}
+		return g, err
+	}
+	// a run that nothing stops is stopped by the watchdog (and reported)
+	done := make(chan struct{})
+	go func() {
+		select {
+		case <-done:
+		case <-time.After(watchdogAfter):
+			thread.Cancel(reasons[watchdogReason])
+		}
+	}()
 	_, err := starlark.ExecFileOptions(opts, thread, "p.star", src, pre)
+	close(done)
 	o.Res, o.Reason = classify(err)
 	if err != nil {
 		o.Msg = err.Error()
@@ -125,6 +163,21 @@ func exec(thread *starlark.Thread, h *host, src string) (o obs) {
 	o.NLog = len(h.log)
 	o.Depth = thread.CallStackDepth()
 	return
+}
+
+var watchdogAfter = 4 * time.Second
+
+// hostcall(f, x): host code calling back into Starlark on the same thread
+func hostcall(t *starlark.Thread, _ *starlark.Builtin, args starlark.Tuple, _ []starlark.Tuple) (starlark.Value, error) {
+	return starlark.Call(t, args[0], args[1:], nil)
+}
+
+// modules available to load()
+var modules = map[string]string{
+	"m1": "def f(n):\n    for i in range(n):\n        b()\n    return n\nb()\nx = [b() for _ in range(3)]\n",
+	"m2": "load(\"m1\", \"f\")\ndef g(n):\n    return f(n) + f(1)\ny = g(2)\nb()\n",
+	"m3": "z = sorted([3, 1, 2], key=lambda v: -v)\ndef h(v):\n    b()\n    return v\n",
+	"mloop": "def spin():\n    while True:\n        b()\nw = [i for i in range(20)]\n",
 }
 
 // ---- programs ----
@@ -147,6 +200,12 @@ var fixed = []prog{
 	{"while", "i = 0\nwhile i < 5:\n    i += 1\n    b()\n", false},
 	{"nested-def", "def g(x):\n    return [b() for _ in range(x)]\ndef f(n):\n    for i in range(n):\n        g(i)\n    return n\nf(4)\n", false},
 	{"unpack-args", "def f(*a, **k):\n    b()\n    return len(a)\nf(*[1,2,3], **{'x': 1})\n(p, q) = (1, 2)\nb()\n", false},
+	{"load", "load(\"m1\", \"f\")\nb()\nf(3)\nb()\n", false},
+	{"load-nested", "b()\nload(\"m2\", \"g\")\nload(\"m1\", \"f\")\ng(1)\nf(2)\nb()\n", false},
+	{"load-late", "x = [b() for _ in range(2)]\nload(\"m3\", \"h\")\ny = sorted([2, 1], key=h)\nb()\n", false},
+	{"load-then-spin", "b()\nload(\"mloop\", \"spin\")\nspin()\n", true},
+	{"hostcall", "def k(x):\n    b()\n    return [b() for _ in range(x)]\nhostcall(k, 2)\nb()\nmax([1, 2], key=lambda v: hostcall(k, v) and v)\nb()\n", false},
+	{"loop-no-calls", "x = 0\nfor i in range(1 << 60):\n    x += i\n", true},
 	{"while-true-b", "while True:\n    b()\n", true},
 	{"while-true", "while True:\n    pass\n", true},
 	{"unbounded-rec", "def f(n):\n    b()\n    return f(n+1)\nf(0)\n", true},
@@ -278,6 +337,9 @@ func oracleFresh(s shape, n uint64, plan map[int][]op, o obs, idx []uint64) stri
 	if o.Depth != 0 {
 		return "call stack not empty after return"
 	}
+	if o.Res == "cancelled" && o.Reason == watchdogReason {
+		return "nothing stopped the execution: the watchdog had to cancel it"
+	}
 	executed := o.Steps
 	if o.Res == "cancelled" {
 		executed--
@@ -339,6 +401,19 @@ func main() {
 		}
 		sc := s
 		hx.Emit(line{Kind: "shape", Prog: p.Name, Src: p.Src, Shape: &sc})
+		// the count includes the steps of modules loaded on the same thread: compare with the same run
+		// whose Load handler executes each module on a thread of its own
+		if s.End != "inf" && strings.Contains(p.Src, "load(") {
+			th := &starlark.Thread{}
+			h := &host{sepLoad: true}
+			o := exec(th, h, p.Src)
+			viol := ""
+			if o.Steps+h.sepSteps != s.T {
+				viol = fmt.Sprintf("the program with its modules on the same thread counts %d steps; main alone %d + modules alone %d = %d", s.T, o.Steps, h.sepSteps, o.Steps+h.sepSteps)
+			}
+			oo := o
+			hx.Emit(line{Kind: "loadsum", Prog: p.Name, N: h.sepSteps, Obs: &oo, Viol: viol})
+		}
 		// det: same count on every run, on fresh and on used threads
 		if s.End != "inf" {
 			th := &starlark.Thread{}
